@@ -6,6 +6,7 @@ from . import c17
 ID = "C13"
 THEOREMS = ["C13_modulation_params", "C13_rf_frequency", "C13_packet_params", "C13_irq_masks", "C13_errata_values", "C13_fixed_commands",
             "C13_sx1276_modem_config_fields", "C13_sx1276_frf_bytes",
+            "C13_sx127x_seq_set_payload", "C13_sx127x_seq_set_buffer_base", "C13_sx127x_seq_get_rx_payload", "C13_sx127x_fifo_registers",
             "C13_sx126x_seq_modulation", "C13_sx126x_seq_packet", "C13_sx126x_seq_channel", "C13_sx126x_seq_tx_power", "C13_sx126x_seq_rx",
             "C13_sx126x_seq_cad", "C13_sx126x_seq_init", "C13_sx126x_seq_simple"]
 BW_HZ = c17.BW_HZ
@@ -165,7 +166,29 @@ def gen_1272(rng, tier):
             lines.append(head % (boost, "9:%d,90:%d" % (rng.below(256), rng.below(256))) + "power %d - 1 | dumpregs" % pw)
     for f in (863000000, 868100000, 869525000, 902300000, 915000000, 923300000, 927500000, 865062500):
         lines.append(head % (0, "-") + "chan %d | dumpregs" % f)
+    # FIFO writes (both chips): whatever the FIFO pointer held before, the payload lands at the TX base (0)
+    for chip in ("sx1272", "sx1276"):
+        for n in (1, 3, 16, 40, 255):
+            for ptr in (0, rng.range(1, 200), 255):
+                lines.append((head % (0, "13:%d" % ptr)).replace("chip=sx1272", "chip=" + chip) + "payload %s | dumpregs" % rng.bytes(n).hex())
+        # ... also after a reception whose last transaction (the pointer rewind) failed and left the pointer behind the received bytes
+        for n, cur in ((5, 7), (16, 0), (40, 100)):
+            lines.append(("phy chip=%s tcxo=- dcdc=0 rxboost=0 txboost=0 fault=8 regs=19:%d,16:%d reads=- fill=0 buf=- | rxpayload 0 0 64 | " % (chip, n, cur))
+                         + "payload %s | dumpregs" % rng.bytes(rng.range(1, 20)).hex())
     return lines
+
+
+def fifo_judge(case, impl, model):
+    """datasheet rule, on the implementation alone: after set_payload the FIFO holds the payload from the TX base address on"""
+    t = case.split(" | ")
+    if t[-1] == "dumpregs" and t[-2].startswith("payload "):
+        want = t[-2].split()[1][:32]
+        outs = impl.split(" ; ")
+        m = re.search(r"fifo=([0-9a-f]+)", outs[-1])
+        if len(outs) >= 2 and outs[-2].startswith("Ok") and m and not m.group(1).startswith(want):
+            return {"kind": "SX127x set_payload: the payload was not written at the FIFO TX base address (the FIFO pointer must be programmed before the burst)",
+                    "fifo_start": m.group(1), "payload_start": want}
+    return None
 
 
 def compare(kind, phy_out, ref_out):
@@ -214,7 +237,7 @@ def run(rep, tier, rng):
     phy_lines = [p[0] for p in pairs]
     # model vs driver (pin-level, exact); disagreements are judged against the reference below
     core.diff_stage(rep, "X:C13:model-vs-driver(pin level)", [l.replace(" | dumpregs", "") for l in phy_lines], lambda c, i, m: None)
-    core.diff_stage(rep, "X:C13:sx1272 model-vs-driver(pin level + register file)", gen_1272(rng, tier), lambda c, i, m: None)
+    core.diff_stage(rep, "X:C13:sx1272 model-vs-driver(pin level + register file)", gen_1272(rng, tier), fifo_judge)
     po = core.run_lines(core.harness_bin(), phy_lines)
     ro = core.run_lines(core.harness_bin(), [p[1] for p in pairs])
     bad = 0
@@ -237,5 +260,6 @@ def run(rep, tier, rng):
                        "image calibration bands, packet status decoding; SX1276 vs the sx127x reference driver by register outcome (Frf, ModemConfig1/2/3 fields, sync word, symbol timeout, preamble / "
                        "payload / header / CRC / IQ registers, PaConfig / PaDac) on randomised prior register contents; the Coq models run on the same scripts (pin-level, exact); "
                        "SX1272 (no vendored reference): modulation / packet parameters (all flag combinations, alone and after set_modulation_params) / symbol timeout / sync word / TX power / "
-                       "frequency on randomised prior register contents, driver against the Coq model at pin level and by final register file")
+                       "frequency on randomised prior register contents, driver against the Coq model at pin level and by final register file; FIFO writes on both SX127x chips from "
+                       "arbitrary prior FIFO pointers (the payload must land at the TX base)")
     core.finish_proof_failures(rep)
